@@ -65,6 +65,11 @@ pub struct CaseC09 {
     pub pre: Vec<Op>,
     pub stale: u8,
     pub kind: Kind,
+    /// refused-open cases: before the mutation, put the file into the state a crash between the mark and the unlink
+    /// of a free-list removal leaves behind (size field of the linked segment at this list position set to 0): the
+    /// recovery a writable open performs must not run - or must leave no trace - when the open is refused
+    #[serde(default)]
+    pub crashmark: Option<u8>,
 }
 
 pub struct C09;
@@ -74,6 +79,8 @@ struct Built {
     bytes: Vec<u8>,
     capacity: usize,
     allocated: usize,
+    /// arena-relative offsets of the free-list nodes, in list order
+    nodes: Vec<u32>,
 }
 
 /// Build a valid arena file with a short history, leave stale non-zero bytes above the cursor.
@@ -109,6 +116,7 @@ fn build<A: Flavor>(case: &CaseC09, classes: &mut BTreeSet<&'static str>) -> Res
     }
     let capacity = w.a().capacity();
     let allocated = w.a().allocated();
+    let nodes: Vec<u32> = w.a().fl().nodes.iter().map(|n| n.0).collect();
     let path = w.path.clone().unwrap();
     if let Err(v) = w.close_all() {
         w.leak();
@@ -117,7 +125,7 @@ fn build<A: Flavor>(case: &CaseC09, classes: &mut BTreeSet<&'static str>) -> Res
     w.path = None;
     w.leak();
     let bytes = std::fs::read(&path).unwrap_or_default();
-    Ok(Some(Built { path, bytes, capacity, allocated }))
+    Ok(Some(Built { path, bytes, capacity, allocated, nodes }))
 }
 
 fn run_refuse<A: Flavor>(case: &CaseC09, m: &Mutation, mode: u8, capsel: u8, create: bool, flags: u8) -> (BTreeSet<&'static str>, Option<Viol>) {
@@ -134,6 +142,14 @@ fn run_refuse<A: Flavor>(case: &CaseC09, m: &Mutation, mode: u8, capsel: u8, cre
     let prefix = opts.data_offset_unify::<A>();
     // apply the mutation
     let mut file = b.bytes.clone();
+    if let (Some(k), false) = (case.crashmark, b.nodes.is_empty()) {
+        // node word = size << 32 | next (little endian): zero the size field of one linked segment
+        let at = off + b.nodes[(k as usize * b.nodes.len()) >> 8] as usize;
+        if at + 8 <= file.len() {
+            file[at + 4..at + 8].copy_from_slice(&[0, 0, 0, 0]);
+            classes.insert("crash-marked-segment-in-file");
+        }
+    }
     match m {
         Mutation::None => {}
         Mutation::Byte { which, val } => {
@@ -443,7 +459,7 @@ impl Prop for C09 {
             3 => (mutation, 0u8..8, 0u8..3, any::<bool>(), prop_oneof![2 => Just(0u8), 1 => 0u8..32]).prop_map(|(m, mode, capsel, create, flags)| Kind::Refuse { m, mode, capsel, create, flags }),
             2 => (0u8..4, 0u8..3, prop::collection::vec(roop, 1..=8), prop_oneof![2 => Just(0u8), 1 => 0u8..32]).prop_map(|(mode, capsel, ops, flags)| Kind::ReadOnly { mode, capsel, ops, flags }),
         ];
-        (case_strategy(&p), prop_oneof![1 => Just(0u8), 4 => 1u8..=120], kind).prop_map(|(c, stale, kind)| CaseC09 { cfg: c.cfg, pre: c.ops, stale, kind }).boxed()
+        (case_strategy(&p), prop_oneof![1 => Just(0u8), 4 => 1u8..=120], kind, prop_oneof![3 => Just(None), 1 => any::<u8>().prop_map(Some)]).prop_map(|(c, stale, kind, crashmark)| CaseC09 { cfg: c.cfg, pre: c.ops, stale, kind, crashmark }).boxed()
     }
     fn run(case: &CaseC09) -> CaseReport {
         crate::enga::set_owner(Some("C09"));
@@ -455,7 +471,7 @@ impl Prop for C09 {
         scale(tier, 160_000, 4_000_000)
     }
     fn rule() -> &'static str {
-        "a valid arena file produced by a short Engine-A history (with stale non-zero bytes left above the cursor by an on-top release), then either (A) one mutation - any of the eight identification bytes to any value, truncation to any length, replacement by arbitrary bytes, or a different expected freelist kind / magic version - opened through map_mut / map_copy / map / map_copy_read_only or their *_with_path_builder forms with capacity same / larger / absent and with or without create: the open must fail whenever the decoded fields (magic text, magic version, format version, freelist byte, expected freelist for writable opens, header-prefix size) say so, and after every failed open the first old_len bytes of the file are identical; or (B) a read-only open (map / map_copy_read_only) followed by 1..8 calls over the safe mutating surface (all alloc flavours incl. zero-size, discard_freelist, set_minimum_segment_size, increase_discarded, clear, flush*, truncate, readers): each returns ReadOnly / PermissionDenied, panics with a read-only message, or returns with state and memory unchanged; no signal; file identical afterwards. Non-trivial = a refused open on a file with stale bytes above the cursor, or a read-only session with >= 3 distinct mutators"
+        "a valid arena file produced by a short Engine-A history (with stale non-zero bytes left above the cursor by an on-top release), then either (A) one mutation - any of the eight identification bytes to any value, truncation to any length, replacement by arbitrary bytes, or a different expected freelist kind / magic version, in one case in four on top of the crash state of the free list (a linked segment whose size field is 0, which a successful writable open repairs) - opened through map_mut / map_copy / map / map_copy_read_only or their *_with_path_builder forms with capacity same / larger / absent and with or without create: the open must fail whenever the decoded fields (magic text, magic version, format version, freelist byte, expected freelist for writable opens, header-prefix size) say so, and after every failed open the first old_len bytes of the file are identical; or (B) a read-only open (map / map_copy_read_only) followed by 1..8 calls over the safe mutating surface (all alloc flavours incl. zero-size, discard_freelist, set_minimum_segment_size, increase_discarded, clear, flush*, truncate, readers): each returns ReadOnly / PermissionDenied, panics with a read-only message, or returns with state and memory unchanged; no signal; file identical afterwards. Non-trivial = a refused open on a file with stale bytes above the cursor, or a read-only session with >= 3 distinct mutators"
     }
     fn assumptions() -> Vec<&'static str> {
         vec![
@@ -464,12 +480,12 @@ impl Prop for C09 {
         ]
     }
     fn simplify(c: &CaseC09) -> Vec<CaseC09> {
-        let mut out: Vec<CaseC09> = simplify_case_a(&CaseA { cfg: c.cfg.clone(), ops: c.pre.clone() }).into_iter().map(|x| CaseC09 { cfg: c.cfg.clone(), pre: x.ops, stale: c.stale, kind: c.kind.clone() }).collect();
+        let mut out: Vec<CaseC09> = simplify_case_a(&CaseA { cfg: c.cfg.clone(), ops: c.pre.clone() }).into_iter().map(|x| CaseC09 { cfg: c.cfg.clone(), pre: x.ops, stale: c.stale, kind: c.kind.clone(), crashmark: c.crashmark }).collect();
         if let Kind::ReadOnly { mode, capsel, ops, flags } = &c.kind {
             for i in 0..ops.len() {
                 let mut o = ops.clone();
                 o.remove(i);
-                out.push(CaseC09 { cfg: c.cfg.clone(), pre: c.pre.clone(), stale: c.stale, kind: Kind::ReadOnly { mode: *mode, capsel: *capsel, ops: o, flags: *flags } });
+                out.push(CaseC09 { cfg: c.cfg.clone(), pre: c.pre.clone(), stale: c.stale, kind: Kind::ReadOnly { mode: *mode, capsel: *capsel, ops: o, flags: *flags }, crashmark: c.crashmark });
             }
         }
         out
